@@ -191,6 +191,24 @@ def _corpus():
                 self.comb += self.o.eq(p0.dat_r ^ self.mem_adr0 ^ self.mem_dat1 ^ self.mem_s ^ self.x)
         d = T(); return d, set(d.ports) | {d.o}
     out.append(("memory-helper-name-clash", memclash)); out.append(("memory-name-clash", lambda: memclash(True)))
+    def kwnames():
+        """reserved words that reach the namespace only through user-chosen names (name_override, Memory(name=), Instance name), never through
+        the hierarchical name dictionary; equal user names on signals, memories and instances"""
+        class Sub(Module):
+            def __init__(self): self.input = Signal(name_override="input"); self.o = Signal(name_override="output"); self.comb += self.o.eq(~self.input)
+        class T(Module):
+            def __init__(self):
+                self.submodules.s0 = Sub(); self.submodules.s1 = Sub()
+                self.w = Signal(name_override="wire"); self.l = Signal(3, name_override="logic"); self.e = Signal(name_override="endmodule"); self.o = Signal(8)
+                self.specials.table = m0 = Memory(8, 4, name="table"); self.specials.mem2 = m1 = Memory(8, 4, name="table"); self.specials.mem3 = m2 = Memory(4, 4, name="storage"); self.specials.mem4 = m3 = Memory(4, 4, name="storage")
+                ps = [m.get_port(write_capable=True) for m in (m0, m1, m2, m3)]; self.specials += ps
+                self.st = Signal(2, name_override="storage")
+                self.specials += Instance("checker", name="checker", i_a=self.w, o_q=Signal(name="iq0")), Instance("checker", name="checker", i_a=self.e, o_q=Signal(name="iq1")), Instance("BUF", name="table", i_a=self.w, o_q=Signal(name="iq2"))
+                self.ports = [x for p_ in ps for x in (p_.adr, p_.dat_w, p_.we, p_.dat_r)]
+                self.comb += self.o.eq(Cat(self.w, self.l, self.e, self.st) ^ ps[0].dat_r ^ ps[1].dat_r)
+                self.sync += self.st.eq(self.st + 1)
+        d = T(); return d, set(d.ports) | {d.o, d.s0.input, d.s1.input, d.s0.o, d.s1.o, d.w, d.l, d.e}
+    out.append(("keywords-and-equal-names-via-user-names(signals,memories,instances)", kwnames))
     return out
 
 def _convert(d, ios, name):
@@ -219,36 +237,63 @@ def c_corpus():
     rk = vmod._ieee_1800_2017_verilog_reserved_keywords
     for name, mkd in _corpus():
         d, ios = mkd()
-        v = _convert(d, ios, name).main_source
+        r = _convert(d, ios, name); v = r.main_source
         names = _decls(v)
+        from contracts.C01_verilog import split_instances
+        try: names += [vi["name"] for vi in split_instances(v)[1]]                    # instance names share the module's name space (IEEE 1364 12.7)
+        except Exception as e: out.append(res(f"ens.decl-unique-legal[{name}]", "ensures", UNKNOWN, 0, "", info=f"instances not parsed: {e}")); continue
         dup = sorted({n for n in names if names.count(n) > 1}); resv = sorted(set(names) & rk)
+        # the namespace handed to the printer reserves EVERY keyword (precondition under which get_name's `fresh` clause excludes reserved words):
+        # exhaustive over the finite keyword list, on the namespace the real convert() built
+        unres = sorted(k for k in rk if k not in r.ns.used)
+        bad_kw = [k for k in sorted(rk) if r.ns.get_name(Signal(name_override=k)) in rk] if not unres else unres
+        out.append(res(f"ens.namespace-reserves-all-keywords[{name}]", "ensures", PROVED if not unres and not bad_kw else VIOLATED, 0, "executed on the namespace built by the real convert(); exhaustive over the keyword list",
+                       keywords=len(rk), info=f"keywords a later request may receive verbatim: {(unres or bad_kw)[:6]}" if unres or bad_kw else ""))
         out.append(res(f"ens.decl-unique-legal[{name}]", "ensures", PROVED if names and not dup and not resv else (VACUOUS if not names else VIOLATED), 0, "declaration scan of the real convert() output", decls=len(names), info=f"dup={dup} reserved={resv}" if dup or resv else ""))
     return dict(results=out, functions=["litex.gen.fhdl.verilog.convert", "litex.gen.fhdl.namer.build_signal_namespace", "litex.gen.fhdl.namer._build_signal_name_dict"],
                 samples=[dict(program=n) for n, _ in _corpus()[:3]])
 
 def c_determinism():
-    """bounded stand-in for 'two runs produce the same text': each corpus program converted in two fresh interpreters with different
-    PYTHONHASHSEED, compared modulo the date/comment header"""
+    """bounded stand-in for 'two runs produce the same text': every corpus program is built and converted REPEATEDLY - in fresh interpreters
+    with different PYTHONHASHSEED and a different heap layout (noise objects of several size classes allocated and partly freed first, so
+    that objects hashing by identity, e.g. specials kept in sets, sit at other relative addresses) - and all texts are compared modulo
+    the date/comment header; data files included.  Rebuilding a design a second time INSIDE one interpreter is not compared: the DUID
+    counter has advanced, signals hash by DUID, and equal base names then legitimately receive their numeric suffixes in another order."""
     code = r'''
-import sys, re, hashlib
+import sys, re, hashlib, os
 sys.path.insert(0, "%s"); sys.path.insert(0, "%s")
+class _N:
+    def __init__(self, i): self.a = i; self.b = [i]
+_nz = int(os.environ.get("VERIF_NOISE", "0"))
+noise = [object() for _ in range(_nz)]; keep = [[i] for i in range(_nz // 7)] + [_N(i) for i in range(_nz // 3)] + [{i: i} for i in range(_nz // 5)] + [set([i]) for i in range(_nz // 11)]
+del noise[::3]; del keep[::2]          # holes of several size classes: later objects land at other relative addresses
 from vf import elab
 from contracts.C02_names import _corpus, _convert
-for name, mkd in _corpus():
-    d, ios = mkd()
-    v = _convert(d, ios, name).main_source
-    v = "\n".join(l for l in v.splitlines() if not l.startswith("//") and "Date" not in l)
-    print(name, hashlib.sha256(v.encode()).hexdigest())
+for rep in range(1):
+    for name, mkd in _corpus():
+        d, ios = mkd()
+        r = _convert(d, ios, name); v = r.main_source
+        v = "\\n".join(l for l in v.splitlines() if not l.startswith("//") and "Date" not in l)
+        v += "".join(f"\\n@@{k}\\n{t}" for k, t in sorted(r.data_files.items()))
+        print(name, hashlib.sha256(v.encode()).hexdigest())
+    keep.append([object() for _ in range(1000 + 137 * rep)])
 ''' % (os.path.dirname(os.path.dirname(os.path.abspath(__file__))), elab.REPO)
-    outs = []
-    for seed in ("0", "12345"):
-        env = dict(os.environ); env["PYTHONHASHSEED"] = seed
-        p = subprocess.run([sys.executable, "-c", code], capture_output=True, text=True, env=env, timeout=600)
-        outs.append(p.stdout.strip().splitlines() if p.returncode == 0 else ["ERROR " + p.stderr[-300:]])
-    same = outs[0] == outs[1] and outs[0] and not outs[0][0].startswith("ERROR")
-    diff = [a for a, b_ in zip(outs[0], outs[1]) if a != b_]
-    return dict(results=[res("ens.reproducible[2 runs x corpus, PYTHONHASHSEED 0/12345]", "bounded", BOUNDED_OK if same else VIOLATED, 0, "differential runs in fresh interpreters", programs=len(outs[0]), info=str(diff[:2] or outs[0][:1]) if not same else "")],
-                functions=["litex.gen.fhdl.verilog.convert (determinism, bounded)"], samples=[dict(bounded="determinism", programs=len(outs[0]))])
+    runs = []
+    for seed, noise in (("0", "0"), ("12345", "50021"), ("987", "300017"), ("31337", "7")):
+        env = dict(os.environ); env["PYTHONHASHSEED"] = seed; env["VERIF_NOISE"] = noise
+        p = subprocess.run([sys.executable, "-c", code], capture_output=True, text=True, env=env, timeout=900)
+        runs.append(p.stdout.strip().splitlines() if p.returncode == 0 else ["ERROR " + p.stderr[-300:]])
+    per = {}
+    for lines in runs:
+        for l in lines:
+            n, _, h = l.rpartition(" "); per.setdefault(n, set()).add(h)
+    err = [l for lines in runs for l in lines if l.startswith("ERROR")]
+    diff = sorted(n for n, hs in per.items() if len(hs) > 1)
+    builds = sum(len(l) for l in runs)
+    ok = not err and not diff and per and builds == 4 * len(per)
+    return dict(results=[res("ens.reproducible[corpus x 4 fresh interpreters with different hash seeds and heap layouts]", "bounded", BOUNDED_OK if ok else VIOLATED, 0, "differential builds", programs=len(per), builds=builds,
+                             info=(f"programs whose text differs between builds: {diff[:4]}" if diff else "") + (str(err[:1]) if err else ""))],
+                functions=["litex.gen.fhdl.verilog.convert (determinism, bounded)", "litex.gen.fhdl.verilog._generate_specials/_generate_signals/_generate_module (iteration order, bounded)"], samples=[dict(bounded="determinism", programs=len(per), builds=builds)])
 
 def c_name_dict_bounded():
     """_build_signal_name_dict: small scope - every signal gets a non-empty legal name that depends only on (backtraces, order)"""
